@@ -376,7 +376,7 @@ def run_playback(spec, ov, hfile, body, tdir, env):
         f.write('\n' + body + '\n')
     names = re.findall(r'fn (kani_concrete_playback_\w+)', body)
     logs, reproduced = [], False
-    for prof in ([], ['--release']):
+    for prof in ([],):  # `cargo kani playback` of Kani 0.68 has no --release: native replay is in the dev profile only
         cmd = ['cargo', 'kani', 'playback', '-Z', 'concrete-playback'] + prof
         if spec.get('features'):
             cmd += ['--features', ','.join(spec['features'])]
